@@ -819,7 +819,7 @@ func (fc *FnCtx) checkInvariants(st *State, ls *LoopSpec, kind string, pos token
 		parts := splitConj(inv.E)
 		fc.curNeeds, fc.curStrict = inv.Needs, inv.Strict
 		for j, part := range parts {
-			env := fc.newSpecEnv(st, fc.entry, scopePos)
+			env := fc.newSpecEnv(st, fc.oldState(), scopePos)
 			v := env.evalBool(part)
 			l := label
 			if len(parts) > 1 {
@@ -833,7 +833,7 @@ func (fc *FnCtx) checkInvariants(st *State, ls *LoopSpec, kind string, pos token
 
 func (fc *FnCtx) assumeInvariants(st *State, ls *LoopSpec, scopePos token.Pos) {
 	for _, inv := range ls.Invariants {
-		env := fc.newSpecEnv(st, fc.entry, scopePos)
+		env := fc.newSpecEnv(st, fc.oldState(), scopePos)
 		fc.curFact = inv.Label
 		fc.assume(st, env.evalBool(inv.E))
 		fc.curFact = ""
@@ -926,7 +926,7 @@ func (fc *FnCtx) execFor(st *State, x *ast.ForStmt, label string) *Outcome {
 		for _, c := range ls.Exits {
 			fc.curFact = c.Label
 			for _, part := range splitConj(c.E) {
-				env := fc.newSpecEnv(out.normal, fc.entry, scopePos)
+				env := fc.newSpecEnv(out.normal, fc.oldState(), scopePos)
 				fc.assume(out.normal, env.evalBool(part))
 			}
 			fc.curFact = ""
@@ -952,7 +952,7 @@ func (fc *FnCtx) checkExits(exits []*State, ls *LoopSpec, pos token.Pos, scopePo
 			parts := splitConj(c.E)
 			fc.curNeeds, fc.curStrict = c.Needs, c.Strict
 			for j, part := range parts {
-				env := fc.newSpecEnv(ex, fc.entry, scopePos)
+				env := fc.newSpecEnv(ex, fc.oldState(), scopePos)
 				l := label
 				if len(parts) > 1 {
 					l = fmt.Sprintf("%s.%d", label, j+1)
@@ -1364,4 +1364,13 @@ func splitConj(e *SExpr) []*SExpr {
 		return out
 	}
 	return []*SExpr{e}
+}
+
+// oldState: what old() denotes in loop clauses: the function's entry state, or, inside an inlined callee,
+// the state at the inlined call.
+func (fc *FnCtx) oldState() *State {
+	if fc.inlineOld != nil {
+		return fc.inlineOld
+	}
+	return fc.entry
 }
